@@ -48,7 +48,8 @@ class Obligation(object):
         if self.where:
             d["where"] = self.where
         if self.detail:
-            d["detail"] = self.detail
+            # for a discharged obligation the text is what would have been reported had it failed
+            d["detail" if not self.ok else "report_if_violated"] = self.detail
         return d
 
 
